@@ -13,8 +13,9 @@
   with ANY pair of functions for the payload (`…_sizeW`), and through the interface dispatch at every nesting depth
   (`protoAny_size`).  The one exception is `util.Buffer`, whose Len() is `uint16(len)`: `buffer_sizeMod`,
   `buffer_size_partial`, `buffer_size_counterexample`.  DHCP and LLDP have no MarshalBinary (Len/Read/Write):
-  for both the size property FAILS (`dhcp_size_counterexample_*`, `lldp_size_counterexample`); `dhcp_size_partial`
-  is the strongest true statement.
+  for both, Len() is the number of bytes Read produces — for EVERY value on which both succeed, modulo 2^16
+  (`dhcp_size`, `lldp_size_mod`), hence exactly below 64 KiB (`dhcp_size_exact`, `dhcp_read_all`, `lldp_size`,
+  `lldp_size_of_read`, `lldp_size_of_tlv_fit`); the 16-bit bound is needed (`dhcp_size_wraps`, `lldp_size_wraps`).
 
   PART 2 (children intact).  Every encoder of the package writes into a buffer of `Len()` bytes with `copy`, which
   silently cuts what does not fit.  For each container:
@@ -32,7 +33,8 @@
     * an `example` with non-trivial values beside each implication.
   Containers: HopByHopHeader → options; RoutingHeader → data; IGMPv3GroupRecord / IGMPv3Query → sources, aux words;
   IGMPv3MembershipReport → records (unconditional); Ethernet → tag, payload; IPv4 → options, payload; IPv6 → extension
-  headers, payload; DHCP → options (unconditional: `append`); LLDP → TLVs (FAILS: `lldp_read_overwrites`).
+  headers, payload; DHCP → options (unconditional: `append`); LLDP → chassis, port, ttl TLVs (`lldp_size`: a buffer of
+  at least Len() bytes; `lldp_short_buffer` otherwise).
   The `…W` theorems hold for ANY pair of payload functions; the unsuffixed ones are their instances at the package's
   interface dispatch (any payload kind, any nesting; hypothesis `SmallBuf` = not a bare Buffer above 65535 bytes, cf.
   `ipv4_big_buffer_truncated`).  `ethernet_ipv4_intact` shows how they chain.
@@ -1394,57 +1396,65 @@ theorem dhcp_embed (op ht hl ho xid secs fl : Nat) (cip yip sip gip hw sname fil
     simp only [Res.bind_ok] at h
     cases h; simp [dhcpHeader]
 
-/-- DHCP: the strongest true size statement.  With 4-byte addresses and no PAD / END option in the list, Len() is
-    the number of bytes Read assembles (modulo 2^16).  The full statement is FALSE: `dhcp_size_counterexample_*`. -/
-theorem dhcp_size_partial (op ht hl ho xid secs fl : Nat) (cip yip sip gip hw sname file : Bytes) (os : List V)
-    (l : UInt16) (bs : Bytes)
-    (h1 : PDHCP.len (.obj "p.DHCP" [.num op, .num ht, .num hl, .num ho, .num xid, .num secs, .num fl, .bytes cip,
-      .bytes yip, .bytes sip, .bytes gip, .bytes hw, .bytes sname, .bytes file, .list os]) = .ok l)
-    (h2 : PDHCP.readBuf (.obj "p.DHCP" [.num op, .num ht, .num hl, .num ho, .num xid, .num secs, .num fl, .bytes cip,
-      .bytes yip, .bytes sip, .bytes gip, .bytes hw, .bytes sname, .bytes file, .list os]) = .ok bs)
-    (hc : cip.length = 4) (hy : yip.length = 4) (hs : sip.length = 4) (hg : gip.length = 4) (hp : PlainOpts os) :
+/-- DHCP, EVERY value: whenever Len() and Read both succeed, Len() is the number of bytes Read assembles — as a
+    `uint16`, i.e. modulo 2^16.  No hypothesis on the value is needed: an address field of any length is written as
+    exactly 4 bytes (`PDHCP.ip4`), the hardware address is cut / padded to 16, server name and file to 64 / 128, a
+    pad / end option counts and writes 1 byte, and any other option for which the encoder succeeds has at most 253
+    data bytes, so its `uint16(len + 2)` is exact. -/
+theorem dhcp_size (v : V) (l : UInt16) (bs : Bytes) (h1 : PDHCP.len v = .ok l) (h2 : PDHCP.readBuf v = .ok bs) :
     l.toNat = bs.length % 65536 := by
-  obtain ⟨obs, e, hobs, he, hbs⟩ := dhcp_embed op ht hl ho xid secs fl cip yip sip gip hw sname file os bs h2
-  simp only [PDHCP.len] at h1
-  obtain ⟨ls, hls, h1⟩ := bind_ok_inv _ _ _ h1
-  obtain ⟨e', he', h1⟩ := bind_ok_inv _ _ _ h1
-  cases h1
-  obtain ⟨hend, hsum⟩ := dhcp_opts_size os ls obs hp hls hobs
-  rw [hend] at he he'
-  cases he; cases he'
-  rw [hbs]
-  simp only [List.length_append, dhcpHeader_length, hc, hy, hs, hg, hsum, Bool.false_eq_true, if_false, List.length_cons,
-    List.length_nil]
-  rw [UInt16.toNat_add, UInt16.toNat_add, sum16_toNat_mod]
-  show ((240 + _ % 65536) % 2 ^ 16 + 1) % 2 ^ 16 = _
+  unfold PDHCP.readBuf at h2
+  split at h2
+  · rename_i op ht hl ho xid secs fl cip yip sip gip hw sname file os
+    obtain ⟨obs, e, hobs, he, hbs⟩ := dhcp_embed op ht hl ho xid secs fl cip yip sip gip hw sname file os bs
+      (by unfold PDHCP.readBuf; exact h2)
+    simp only [PDHCP.len] at h1
+    obtain ⟨ls, hls, h1⟩ := bind_ok_inv _ _ _ h1
+    obtain ⟨e', he', h1⟩ := bind_ok_inv _ _ _ h1
+    cases h1
+    obtain ⟨_, hsum⟩ := dhcp_opts_size os ls obs hls hobs
+    rw [he] at he'
+    cases he'
+    rw [hbs]
+    simp only [List.length_append, dhcpHeader_length, hsum]
+    rw [UInt16.toNat_add, UInt16.toNat_add, sum16_toNat_mod]
+    cases e with
+    | true =>
+      simp only [if_true, List.length_nil]
+      show ((240 + _ % 65536) % 2 ^ 16 + 0) % 2 ^ 16 = _
+      omega
+    | false =>
+      simp only [Bool.false_eq_true, if_false, List.length_cons, List.length_nil]
+      show ((240 + _ % 65536) % 2 ^ 16 + 1) % 2 ^ 16 = _
+      omega
+  · exact absurd h2 (by simp)
+
+/-- … hence exact whenever the message is below 64 KiB (Len() is a `uint16`; `dhcp_size_wraps` shows that the bound is
+    needed) -/
+theorem dhcp_size_exact (v : V) (l : UInt16) (bs : Bytes) (h1 : PDHCP.len v = .ok l) (h2 : PDHCP.readBuf v = .ok bs)
+    (hlt : bs.length < 65536) : bs.length = l.toNat := by
+  have := dhcp_size v l bs h1 h2
   omega
 
-/-- … hence exact whenever the message is below 64 KiB -/
-theorem dhcp_size_partial' (op ht hl ho xid secs fl : Nat) (cip yip sip gip hw sname file : Bytes) (os : List V)
-    (l : UInt16) (bs : Bytes)
-    (h1 : PDHCP.len (.obj "p.DHCP" [.num op, .num ht, .num hl, .num ho, .num xid, .num secs, .num fl, .bytes cip,
-      .bytes yip, .bytes sip, .bytes gip, .bytes hw, .bytes sname, .bytes file, .list os]) = .ok l)
-    (h2 : PDHCP.readBuf (.obj "p.DHCP" [.num op, .num ht, .num hl, .num ho, .num xid, .num secs, .num fl, .bytes cip,
-      .bytes yip, .bytes sip, .bytes gip, .bytes hw, .bytes sname, .bytes file, .list os]) = .ok bs)
-    (hc : cip.length = 4) (hy : yip.length = 4) (hs : sip.length = 4) (hg : gip.length = 4) (hp : PlainOpts os)
-    (hlt : bs.length < 65536) : bs.length = l.toNat := by
-  have := dhcp_size_partial op ht hl ho xid secs fl cip yip sip gip hw sname file os l bs h1 h2 hc hy hs hg hp
-  omega
+/-- … and `Read(b)` into a buffer of Len() bytes returns the whole message: nothing is dropped -/
+theorem dhcp_read_all (v : V) (l : UInt16) (bs : Bytes) (h1 : PDHCP.len v = .ok l) (h2 : PDHCP.readBuf v = .ok bs)
+    (hlt : bs.length < 65536) : PDHCP.read v l.toNat = .ok bs := by
+  have := dhcp_size_exact v l bs h1 h2 hlt
+  simp only [PDHCP.read, h2, Res.bind_ok]
+  rw [← this, List.take_length]
 
 /-- a DHCP request with 4-byte addresses and the given options -/
 def dhcpEx (os : List V) : V := .obj "p.DHCP" [.num 1, .num 1, .num 6, .num 0, .num 7, .num 0, .num 0, .bytes [10, 0, 0, 1],
   .bytes [10, 0, 0, 2], .bytes [10, 0, 0, 3], .bytes [10, 0, 0, 4], .bytes [1, 2, 3, 4, 5, 6], .bytes (zeros 64), .bytes (zeros 128),
   .list os]
 
-/-- an explicit END option: Len() counts 2 bytes for it, Read writes 1 -/
-theorem dhcp_size_counterexample_end :
-    PDHCP.len (dhcpEx [PDhcpOpt.mk 53 [1], PDhcpOpt.mk 255 []]) = .ok 245 ∧
+/-- an explicit END option: Len() counts 1 byte for it, Read writes 1 (240 + 3 + 1 = 244) -/
+example : PDHCP.len (dhcpEx [PDhcpOpt.mk 53 [1], PDhcpOpt.mk 255 []]) = .ok 244 ∧
     ∃ bs, PDHCP.readBuf (dhcpEx [PDhcpOpt.mk 53 [1], PDhcpOpt.mk 255 []]) = .ok bs ∧ bs.length = 244 :=
   ⟨rfl, _, rfl, by decide +kernel⟩
 
-/-- a PAD option: the same -/
-theorem dhcp_size_counterexample_pad :
-    PDHCP.len (dhcpEx [PDhcpOpt.mk 0 [], PDhcpOpt.mk 53 [1]]) = .ok 246 ∧
+/-- a PAD option: the same (240 + 1 + 3 + 1 appended END = 245) -/
+example : PDHCP.len (dhcpEx [PDhcpOpt.mk 0 [], PDhcpOpt.mk 53 [1]]) = .ok 245 ∧
     ∃ bs, PDHCP.readBuf (dhcpEx [PDhcpOpt.mk 0 [], PDhcpOpt.mk 53 [1]]) = .ok bs ∧ bs.length = 245 :=
   ⟨rfl, _, rfl, by decide +kernel⟩
 
@@ -1453,41 +1463,38 @@ example : PDHCP.len (dhcpEx [PDhcpOpt.mk 53 [1], PDhcpOpt.mk 61 [1, 2, 3, 4, 5, 
     ∃ bs, PDHCP.readBuf (dhcpEx [PDhcpOpt.mk 53 [1], PDhcpOpt.mk 61 [1, 2, 3, 4, 5, 6]]) = .ok bs ∧ bs.length = 252 :=
   ⟨rfl, _, rfl, by decide +kernel⟩
 
-example : PlainOpts [PDhcpOpt.mk 53 [1], PDhcpOpt.mk 61 [1, 2, 3, 4, 5, 6]] := by
-  intro o ho t ht
-  simp only [List.mem_cons, List.not_mem_nil, or_false] at ho
-  rcases ho with rfl | rfl <;> (cases ht; rfl)
-
-/-- a 16-byte address (net.IP of an IPv4 address is usually the 16-byte form): Len() counts 4 bytes, Read writes 16 -/
-theorem dhcp_size_counterexample_ip16 :
-    PDHCP.len (.obj "p.DHCP" [.num 1, .num 1, .num 6, .num 0, .num 7, .num 0, .num 0, .bytes (ipV4Mapped 10 0 0 1),
-      .bytes [0, 0, 0, 0], .bytes [0, 0, 0, 0], .bytes [0, 0, 0, 0], .bytes [1, 2, 3, 4, 5, 6], .bytes (zeros 64), .bytes (zeros 128),
+/-- a 16-byte address (net.IP of an IPv4 address is usually the 16-byte form), an address of a wrong length, a
+    20-byte hardware address, a short server name: 241 bytes reported and assembled, the v4-mapped address is
+    written as its last four bytes -/
+example : PDHCP.len (.obj "p.DHCP" [.num 1, .num 1, .num 6, .num 0, .num 7, .num 0, .num 0, .bytes (ipV4Mapped 10 0 0 1),
+      .bytes [0, 0, 0, 0], .bytes [1, 2, 3], .bytes [], .bytes ((List.range 20).map UInt8.ofNat), .bytes [115], .bytes (zeros 128),
       .list []]) = .ok 241 ∧
     ∃ bs, PDHCP.readBuf (.obj "p.DHCP" [.num 1, .num 1, .num 6, .num 0, .num 7, .num 0, .num 0, .bytes (ipV4Mapped 10 0 0 1),
-      .bytes [0, 0, 0, 0], .bytes [0, 0, 0, 0], .bytes [0, 0, 0, 0], .bytes [1, 2, 3, 4, 5, 6], .bytes (zeros 64), .bytes (zeros 128),
-      .list []]) = .ok bs ∧ bs.length = 253 :=
-  ⟨rfl, _, rfl, by decide +kernel⟩
+      .bytes [0, 0, 0, 0], .bytes [1, 2, 3], .bytes [], .bytes ((List.range 20).map UInt8.ofNat), .bytes [115], .bytes (zeros 128),
+      .list []]) = .ok bs ∧ bs.length = 241 ∧ (bs.drop 12).take 16 = [10, 0, 0, 1, 0, 0, 0, 0, 0, 0, 0, 0, 0, 0, 0, 0] :=
+  ⟨rfl, _, rfl, by decide +kernel, by decide +kernel⟩
 
-/-! ### LLDP → TLVs (Len / Read; no MarshalBinary).  Len() is the constant 15; Read writes every TLV to the START of the
-    buffer.  Both halves of C06 fail. -/
+/-- an option with more than 253 data bytes does not encode: Read fails (and Len() does not), so the theorems above
+    say nothing about such a value — the hypothesis "Read succeeds" cannot be dropped -/
+theorem dhcp_long_option_fails :
+    PDHCP.len (dhcpEx [PDhcpOpt.mk 43 (zeros 254)]) = .ok 497 ∧ PDHCP.readBuf (dhcpEx [PDhcpOpt.mk 43 (zeros 254)]) = .err :=
+  ⟨by decide +kernel, by decide +kernel⟩
 
-/-- LLDP.Read into a buffer that could hold everything: every TLV is written to the START of the buffer — the result
-    begins with the chassis TLV (written last, over the port TLV), the TTL TLV is never written, and the returned
-    count is `2·|chassis| + |port|` although at most `max |chassis| |port|` bytes were touched -/
-theorem lldp_read_overwrites (ch pt ttl : V) (b out : Bytes) (n : Nat) (cb pb : Bytes)
-    (h : PLLDP.read (.obj "p.LLDP" [ch, pt, ttl]) b = .ok (out, n))
-    (hcb : PTLV.readBuf "p.ChassisTLV" ch = .ok cb) (hpb : PTLV.readBuf "p.PortTLV" pt = .ok pb)
-    (hfit : cb.length ≤ b.length) :
-    out = copyInto (copyInto (copyInto b cb) pb) cb ∧ out.take cb.length = cb ∧
-      n = cb.length + min b.length pb.length + cb.length ∧ out.length = b.length := by
-  have c3 := tlv_readBuf_length _ _ _ hcb
-  have p3 := tlv_readBuf_length _ _ _ hpb
-  simp only [PLLDP.read, hcb, hpb, Res.bind_ok] at h
-  rw [if_neg (by omega)] at h
-  rw [if_neg (by omega)] at h
-  cases h
-  refine ⟨rfl, ?_, by rw [Nat.min_eq_right hfit], by simp [copyInto_length]⟩
-  exact copyInto_take _ _ (by simp only [copyInto_length]; exact hfit)
+/-- Len() is a `uint16`: 258 options of 253 data bytes make a message of 240 + 258·255 + 1 = 66031 bytes, for which
+    Len() reports 66031 − 65536 = 495.  The bound of `dhcp_size_exact` is needed (as for every 16-bit length of the
+    library; a DHCP message is carried in a UDP datagram and cannot be that long on the wire) -/
+theorem dhcp_size_wraps :
+    PDHCP.len (dhcpEx (List.replicate 258 (PDhcpOpt.mk 43 (zeros 253)))) = .ok 495 ∧
+    ∃ bs, PDHCP.readBuf (dhcpEx (List.replicate 258 (PDhcpOpt.mk 43 (zeros 253)))) = .ok bs ∧ bs.length = 66031 := by
+  refine ⟨by decide +kernel, ?_⟩
+  have h : (do let bs ← PDHCP.readBuf (dhcpEx (List.replicate 258 (PDhcpOpt.mk 43 (zeros 253)))); Res.ok bs.length)
+      = .ok 66031 := by decide +kernel
+  obtain ⟨bs, hbs, h'⟩ := bind_ok_inv _ _ _ h
+  injection h' with h'
+  exact ⟨bs, hbs, h'⟩
+
+/-! ### LLDP → TLVs (Len / Read; no MarshalBinary).  Len() is the sum of the three TLV sizes; Read writes the chassis,
+    port and ttl TLVs one behind the other. -/
 
 /-- what a TLV's Read produces: type/length word, subtype, data — 3 + |data| bytes whatever the Length field says -/
 theorem tlv_read_length (kind : String) (ty ln st : Nat) (d : Bytes) (b : Bytes)
@@ -1497,17 +1504,146 @@ theorem tlv_read_length (kind : String) (ty ln st : Nat) (d : Bytes) (b : Bytes)
   cases h
   exact ⟨rfl, by simp; omega⟩
 
-/-- concrete: chassis = MAC address (9 bytes), port = interface name "eth0" (7 bytes), TTL 120 -/
-theorem lldp_size_counterexample :
+/-- LLDP, EVERY value for which Len() and the three TLVs' own Read succeed (`cb`, `pb`, `tb` are what the chassis,
+    port and ttl TLV write for themselves): Len() is the sum of the three sizes as a `uint16`, i.e. modulo 2^16, and
+    leaves the receiver alone.  The 9-bit Length fields are caller-supplied and play no role. -/
+theorem lldp_size_mod (ch pt ttl : V) (l : UInt16) (v1 : V) (cb pb tb : Bytes)
+    (h1 : PLLDP.lenM (.obj "p.LLDP" [ch, pt, ttl]) = .ok (l, v1))
+    (hcb : PTLV.readBuf "p.ChassisTLV" ch = .ok cb) (hpb : PTLV.readBuf "p.PortTLV" pt = .ok pb)
+    (htb : PTLV.ttlReadBuf ttl = .ok tb) :
+    v1 = .obj "p.LLDP" [ch, pt, ttl] ∧ l.toNat = (cb.length + pb.length + tb.length) % 65536 :=
+  lldp_len_mod ch pt ttl l v1 cb pb tb h1 hcb hpb htb
+
+/-- LLDP, size = bytes and children intact: for every LLDP value whose three TLVs together stay below 64 KiB (always
+    the case when the chassis / port ids fit the 9-bit TLV length: `lldp_size_of_tlv_fit`), `Read` into a buffer of at
+    least Len() bytes returns Len(), and the buffer then holds the chassis TLV's bytes, the port TLV's bytes and the
+    ttl TLV's bytes, complete and in this order, followed by what it held before behind them.  Nothing is
+    overwritten by a neighbour, nothing is dropped. -/
+theorem lldp_size (ch pt ttl : V) (l : UInt16) (v1 : V) (cb pb tb b : Bytes)
+    (h1 : PLLDP.lenM (.obj "p.LLDP" [ch, pt, ttl]) = .ok (l, v1))
+    (hcb : PTLV.readBuf "p.ChassisTLV" ch = .ok cb) (hpb : PTLV.readBuf "p.PortTLV" pt = .ok pb)
+    (htb : PTLV.ttlReadBuf ttl = .ok tb)
+    (hfit : cb.length + pb.length + tb.length < 65536) (hb : l.toNat ≤ b.length) :
+    l.toNat = cb.length + pb.length + tb.length ∧
+    PLLDP.read (.obj "p.LLDP" [ch, pt, ttl]) b = .ok (cb ++ pb ++ tb ++ b.drop l.toNat, l.toNat) := by
+  obtain ⟨_, hl⟩ := lldp_len_mod ch pt ttl l v1 cb pb tb h1 hcb hpb htb
+  have hl' : l.toNat = cb.length + pb.length + tb.length := by omega
+  refine ⟨hl', ?_⟩
+  rw [hl']
+  exact lldp_read_eq ch pt ttl cb pb tb b hcb hpb htb (by omega)
+
+/-- the same, read off a successful `Read`: whenever Len() and Read (into a buffer of at least Len() ≥ 1 bytes)
+    both succeed on a value whose ids together stay below 64 KiB, the count Read returns is Len() and the first Len()
+    bytes of the buffer are the three TLVs -/
+theorem lldp_size_of_read (kc kp : String) (cty cln cst pty pln pst : V) (cd pd : Bytes) (ttl : V) (l : UInt16) (v1 : V)
+    (b out : Bytes) (n : Nat)
+    (h1 : PLLDP.lenM (.obj "p.LLDP" [.obj kc [cty, cln, cst, .bytes cd], .obj kp [pty, pln, pst, .bytes pd], ttl]) = .ok (l, v1))
+    (h2 : PLLDP.read (.obj "p.LLDP" [.obj kc [cty, cln, cst, .bytes cd], .obj kp [pty, pln, pst, .bytes pd], ttl]) b = .ok (out, n))
+    (hfit : cd.length + pd.length + 10 < 65536) (hb : l.toNat ≤ b.length) :
+    n = l.toNat ∧ l.toNat = 10 + cd.length + pd.length ∧
+    ∃ cb pb tb, PTLV.readBuf "p.ChassisTLV" (.obj kc [cty, cln, cst, .bytes cd]) = .ok cb ∧
+      PTLV.readBuf "p.PortTLV" (.obj kp [pty, pln, pst, .bytes pd]) = .ok pb ∧ PTLV.ttlReadBuf ttl = .ok tb ∧
+      out = cb ++ pb ++ tb ++ b.drop l.toNat := by
+  -- Len() ≥ 10, so the buffer is not empty and Read evaluates all three TLVs
+  have hl : l.toNat = 10 + cd.length + pd.length := by
+    simp only [PLLDP.lenM] at h1
+    obtain ⟨e1, _⟩ := same_ok _ _ _ _ h1
+    subst e1
+    rw [UInt16.toNat_add, UInt16.toNat_add]
+    simp only [n16, UInt16.toNat_ofNat']
+    show (((3 + cd.length) % 2 ^ 16 + (3 + pd.length) % 2 ^ 16) % 2 ^ 16 + 4) % 2 ^ 16 = _
+    omega
+  have h2' := h2
+  simp only [PLLDP.read] at h2'
+  obtain ⟨cb, hcb, g1⟩ := bind_ok_inv _ _ _ h2'
+  clear h2'
+  have lc : cb.length = 3 + cd.length := by
+    obtain ⟨_, _, _, cd', ec, _, lc'⟩ := tlv_readBuf_shape _ _ _ hcb
+    have : cd' = cd := by cases ec; rfl
+    rw [lc', this]
+  rw [if_neg (by omega)] at g1
+  obtain ⟨pb, hpb, g2⟩ := bind_ok_inv _ _ _ g1
+  clear g1
+  have lp : pb.length = 3 + pd.length := by
+    obtain ⟨_, _, _, pd', ep, _, lp'⟩ := tlv_readBuf_shape _ _ _ hpb
+    have : pd' = pd := by cases ep; rfl
+    rw [lp', this]
+  rw [if_neg (by omega)] at g2
+  obtain ⟨tb, htb, _⟩ := bind_ok_inv _ _ _ g2
+  obtain ⟨_, _, _, _, _, lt⟩ := ttl_readBuf_shape _ _ htb
+  obtain ⟨_, hr⟩ := lldp_size _ _ ttl l v1 cb pb tb b h1 hcb hpb htb (by omega) hb
+  rw [hr] at h2
+  cases h2
+  exact ⟨rfl, hl, cb, pb, tb, hcb, hpb, htb, rfl⟩
+
+/-- ids that fit the 9-bit TLV length (at most 511 bytes each) are far below the bound of `lldp_size` -/
+theorem lldp_size_of_tlv_fit (cty cln cst pty pln pst tty tln secs : Nat) (cd pd : Bytes) (b : Bytes)
+    (hc : cd.length ≤ 511) (hp : pd.length ≤ 511) (hb : 10 + cd.length + pd.length ≤ b.length) :
+    PLLDP.lenM (.obj "p.LLDP" [.obj "p.ChassisTLV" [.num cty, .num cln, .num cst, .bytes cd],
+        .obj "p.PortTLV" [.num pty, .num pln, .num pst, .bytes pd], .obj "p.TTLTLV" [.num tty, .num tln, .num secs]])
+      = .ok (n16 (10 + cd.length + pd.length), .obj "p.LLDP" [.obj "p.ChassisTLV" [.num cty, .num cln, .num cst, .bytes cd],
+        .obj "p.PortTLV" [.num pty, .num pln, .num pst, .bytes pd], .obj "p.TTLTLV" [.num tty, .num tln, .num secs]]) ∧
+    PLLDP.read (.obj "p.LLDP" [.obj "p.ChassisTLV" [.num cty, .num cln, .num cst, .bytes cd],
+        .obj "p.PortTLV" [.num pty, .num pln, .num pst, .bytes pd], .obj "p.TTLTLV" [.num tty, .num tln, .num secs]]) b
+      = .ok ((be16 (PTLV.packTypeLen (n8 cty) (n16 cln)) ++ [n8 cst] ++ cd)
+          ++ (be16 (PTLV.packTypeLen (n8 pty) (n16 pln)) ++ [n8 pst] ++ pd)
+          ++ (be16 (PTLV.packTypeLen (n8 tty) (n16 tln)) ++ be16 (n16 secs))
+          ++ b.drop (10 + cd.length + pd.length), 10 + cd.length + pd.length) := by
+  have hcb : PTLV.readBuf "p.ChassisTLV" (.obj "p.ChassisTLV" [.num cty, .num cln, .num cst, .bytes cd])
+      = .ok (be16 (PTLV.packTypeLen (n8 cty) (n16 cln)) ++ [n8 cst] ++ cd) := by simp only [PTLV.readBuf, if_true]
+  have hpb : PTLV.readBuf "p.PortTLV" (.obj "p.PortTLV" [.num pty, .num pln, .num pst, .bytes pd])
+      = .ok (be16 (PTLV.packTypeLen (n8 pty) (n16 pln)) ++ [n8 pst] ++ pd) := by simp only [PTLV.readBuf, if_true]
+  have htb : PTLV.ttlReadBuf (.obj "p.TTLTLV" [.num tty, .num tln, .num secs])
+      = .ok (be16 (PTLV.packTypeLen (n8 tty) (n16 tln)) ++ be16 (n16 secs)) := rfl
+  obtain ⟨l, v1, h1⟩ : ∃ l v1, PLLDP.lenM (.obj "p.LLDP" [.obj "p.ChassisTLV" [.num cty, .num cln, .num cst, .bytes cd],
+        .obj "p.PortTLV" [.num pty, .num pln, .num pst, .bytes pd], .obj "p.TTLTLV" [.num tty, .num tln, .num secs]])
+      = .ok (l, v1) := ⟨_, _, rfl⟩
+  have lc : (be16 (PTLV.packTypeLen (n8 cty) (n16 cln)) ++ [n8 cst] ++ cd).length = 3 + cd.length := by simp; omega
+  have lp : (be16 (PTLV.packTypeLen (n8 pty) (n16 pln)) ++ [n8 pst] ++ pd).length = 3 + pd.length := by simp; omega
+  have lt : (be16 (PTLV.packTypeLen (n8 tty) (n16 tln)) ++ be16 (n16 secs)).length = 4 := rfl
+  obtain ⟨e1, hl⟩ := lldp_len_mod _ _ _ l v1 _ _ _ h1 hcb hpb htb
+  rw [lc, lp, lt] at hl
+  have hl' : l.toNat = 10 + cd.length + pd.length := by omega
+  have el : l = n16 (10 + cd.length + pd.length) := by
+    apply UInt16.toNat_inj.mp
+    rw [hl']; simp only [n16, UInt16.toNat_ofNat']; omega
+  obtain ⟨_, hr⟩ := lldp_size _ _ _ l v1 _ _ _ b h1 hcb hpb htb (by rw [lc, lp, lt]; omega) (by omega)
+  rw [hl'] at hr
+  exact ⟨by rw [h1, e1, el], hr⟩
+
+/-- concrete: chassis = MAC address (9 bytes), port = interface name "eth0" (7 bytes), TTL 120: Len() = 20, Read into
+    a 32-byte buffer returns 20 and writes the three TLVs behind one another -/
+example :
     ∃ out, PLLDP.lenM (.obj "p.LLDP" [.obj "p.ChassisTLV" [.num 1, .num 7, .num 4, .bytes [0, 1, 2, 3, 4, 5]],
         .obj "p.PortTLV" [.num 2, .num 5, .num 5, .bytes [101, 116, 104, 48]], .obj "p.TTLTLV" [.num 3, .num 2, .num 120]])
-        = .ok (15, .obj "p.LLDP" [.obj "p.ChassisTLV" [.num 1, .num 7, .num 4, .bytes [0, 1, 2, 3, 4, 5]],
+        = .ok (20, .obj "p.LLDP" [.obj "p.ChassisTLV" [.num 1, .num 7, .num 4, .bytes [0, 1, 2, 3, 4, 5]],
         .obj "p.PortTLV" [.num 2, .num 5, .num 5, .bytes [101, 116, 104, 48]], .obj "p.TTLTLV" [.num 3, .num 2, .num 120]]) ∧
       PLLDP.read (.obj "p.LLDP" [.obj "p.ChassisTLV" [.num 1, .num 7, .num 4, .bytes [0, 1, 2, 3, 4, 5]],
         .obj "p.PortTLV" [.num 2, .num 5, .num 5, .bytes [101, 116, 104, 48]], .obj "p.TTLTLV" [.num 3, .num 2, .num 120]])
-        (zeros 32) = .ok (out, 25) ∧
-      out = [2, 7, 4, 0, 1, 2, 3, 4, 5] ++ zeros 23 :=
+        (zeros 32) = .ok (out, 20) ∧
+      out = [2, 7, 4, 0, 1, 2, 3, 4, 5] ++ [4, 5, 5, 101, 116, 104, 48] ++ [6, 2, 0, 120] ++ zeros 12 :=
   ⟨_, rfl, rfl, by decide +kernel⟩
+
+/-- a buffer shorter than Len(): Read copies what fits and returns the shortened count (here 12 of 20 bytes: the
+    chassis TLV and the first three bytes of the port TLV; the ttl TLV finds no room, its Read returns 0) — the
+    hypothesis `Len() ≤ len(b)` of `lldp_size` is the caller's part of the contract -/
+theorem lldp_short_buffer :
+    PLLDP.read (.obj "p.LLDP" [.obj "p.ChassisTLV" [.num 1, .num 7, .num 4, .bytes [0, 1, 2, 3, 4, 5]],
+        .obj "p.PortTLV" [.num 2, .num 5, .num 5, .bytes [101, 116, 104, 48]], .obj "p.TTLTLV" [.num 3, .num 2, .num 120]])
+        (zeros 12) = .ok ([2, 7, 4, 0, 1, 2, 3, 4, 5, 4, 5, 5], 12) := by decide +kernel
+
+/-- Len() is a `uint16`: with a chassis id of 65530 bytes (which no 9-bit TLV length can describe) the chassis TLV
+    alone writes 65533 bytes while Len() reports (65533 + 3 + 4) − 65536 = 4.  The bound of `lldp_size` is needed. -/
+theorem lldp_size_wraps :
+    ∃ l v1 cb, PLLDP.lenM (.obj "p.LLDP" [.obj "p.ChassisTLV" [.num 1, .num 7, .num 4, .bytes (zeros 65530)],
+        .obj "p.PortTLV" [.num 2, .num 5, .num 5, .bytes []], .obj "p.TTLTLV" [.num 3, .num 2, .num 120]]) = .ok (l, v1) ∧
+      l.toNat = 4 ∧
+      PTLV.readBuf "p.ChassisTLV" (.obj "p.ChassisTLV" [.num 1, .num 7, .num 4, .bytes (zeros 65530)]) = .ok cb ∧
+      cb.length = 65533 := by
+  refine ⟨_, _, _, rfl, ?_, rfl, ?_⟩
+  · rw [zeros_length]
+    decide
+  · rw [(tlv_read_length "p.ChassisTLV" 1 7 4 (zeros 65530) _ rfl).2, zeros_length]
 
 /-! ### composition: the container theorems chain through the interface dispatch -/
 
